@@ -131,70 +131,3 @@ def sendall_case(stderr):
 
 def cases(tier):
     return [sendall_case(False), sendall_case(True)]
-
-
-# ---------------------------------------------------------------------------------------------------------------
-# interleavings (engine E2): several senders blocked on an empty window, then one window adjust that has room for all
-
-def _scenario(name, nsenders):
-    import props.C22 as C22
-    import paramiko.channel as CH
-    from cfa.bmc import V, Int
-    from cfa.driver import Scenario
-    W = C22._world()
-    P = {"len": V(Int("p_len"))}
-    ops = ["send"] * nsenders + ["window_adjust"]
-    threads = [("T%d" % (i + 1), [(op,) + ("chan",) + C22.OPS[op]]) for i, op in enumerate(ops)]
-
-    def init(s):
-        w = s[("fld", "chan", "out_window_size")]
-        return [w >= 0, w <= 1, P["len"].i == 1]
-
-    def bad(m, s, t):
-        def tr(x):
-            return x if z3.is_bool(x) else x != 0
-        usable = z3.And(s[("fld", "chan", "out_window_size")] > 0, z3.Not(tr(s[("fld", "chan", "closed")])),
-                        z3.Not(tr(s[("fld", "chan", "eof_sent")])))
-        # nobody can move, a sender has not finished, and yet the window is open: it will sleep forever
-        return z3.And(m.stuck(s, t), usable)
-
-    def make_real(params, init_, clock):
-        from paramiko.message import Message
-        c, tr = C22._real_channel(int(init_.get("chan.out_window_size", 0)))
-        fns = {}
-        for i, op in enumerate(ops):
-            def fn(op=op):
-                if op == "send":
-                    return c.send(b"x")
-                return c._window_adjust(Message(b"\x00\x00\x00\x02"))
-            fns["T%d" % (i + 1)] = fn
-        return {"fns": fns, "chan": c, "tr": tr, "gate": [(c, "lock", "out_buffer_cv")]}
-
-    def observe(real, s):
-        c = real["chan"]
-        done = getattr(s, "completed", None)
-        return {"all_threads_finished": done, "send_window_left": c.out_window_size,
-                "violated": done is False and c.out_window_size > 0 and not c.closed}
-    sc = Scenario(name, W, threads, bad, 0, params=P, init_extra=init, files=[CH.__file__], make_real=make_real, observe=observe)
-    sc.loop_allowance_iterations = 1
-    sc.loop_allowance = 12
-    sc.opaque_modules = ("paramiko.buffered_pipe",)
-    sc.atomic_locks = ("chan.lock",)        # as in C22: steps inside a region locked by Channel.lock are taken as one block
-    sc.timeout_ms = 600000
-    return sc
-
-
-def scenarios(tier):
-    return [_scenario("send||send||window_adjust(2)", 2)]
-
-
-def run_scenarios(tier, seed):
-    import paramiko.channel as CH
-    from cfa.driver import run_property
-    C = CH.Channel
-    return run_property(PROPERTY, scenarios(tier), tier, seed, [C.send, C._send, C._wait_for_send_window, C._window_adjust],
-                        ["transport: ghost wire; Lock/Condition models as for C22 (Condition.notify wakes one sleeper chosen by the "
-                         "scheduler, notify_all wakes all)"],
-                        ["one channel, send window 0..1, two blocking senders of one byte each and one window adjust of 2: no reachable "
-                         "state in which no thread can move, a sender is still asleep and the window is open (lost wake-up)"],
-                        "Scenario: Channel.send || Channel.send || Channel._window_adjust.", merge=True)
